@@ -274,7 +274,7 @@ def multi_session(camp, rng, rounds):
                 ticker = [0]
 
                 def strftime(fmt, _t=ticker):
-                    _t[0] += 1
+                    _t[0] += rng.choice([0, 1, 1])        # a viewer may come back within the same second
                     return "c%04d" % _t[0]
                 clock.strftime = strftime
             else:
@@ -310,7 +310,11 @@ def multi_session(camp, rng, rounds):
             live = list(range(len(specs)))
             while live and not why:
                 j = live[0] if not overlap else rng.choice(live)
-                p, sched, sv, ss = conn(j)
+                try:
+                    p, sched, sv, ss = conn(j)
+                except Exception as e:  # noqa: BLE001
+                    why = f"connection #{j} of {len(specs)} on one factory ({mode}): accepting the viewer raised {type(e).__name__}: {str(e)[:100]}"
+                    break
                 if not sched:
                     e = p.lose()
                     if e is not None:
